@@ -35,7 +35,7 @@ ASSUMPTIONS = ['numpy composition of item.linear/item.offset is the reference me
                'for sequences with fromdims<todims membership of a foreign chain is only judged by soundness of a positive answer',
                'locate: targets on element boundaries are only required to be found when eps>0 was requested; outside targets are >=0.25 domain sizes away or gauss points of dropped elements',
                'maxprocs=1 (parallel locate is C16)']
-BUDGET_S = {'quick': 110, 'thorough': 1500}
+BUDGET_S = {'quick': int(os.environ.get('C11_BUDGET_QUICK', '110')), 'thorough': int(os.environ.get('C11_BUDGET_THOROUGH', '1500'))}  # env: development on a loaded machine only
 _SCALE = float(os.environ.get('C11_SCALE', '1') or 1)  # development only: run a fraction of the plan with fewer workers
 NSEQ = {'quick': int(800 * _SCALE), 'thorough': int(14000 * _SCALE)}
 NCHAIN = {'quick': int(2000 * _SCALE), 'thorough': int(40000 * _SCALE)}
@@ -315,6 +315,13 @@ def execute_locate(case, res):
     sel_in = rng.integers(0, len(Xin), nin)
     sel_bz = rng.integers(0, len(Xbz), nbz)
     inside = numpy.concatenate([Xin[sel_in], Xbz[sel_bz]]) if nbz else Xin[sel_in]
+
+    def elem_of(smp, rows):
+        owner = numpy.empty(smp.npoints, dtype=int)
+        for j in range(smp.nelems):
+            owner[smp.getindex(j)] = j
+        return owner[rows]
+    inside_elem = numpy.concatenate([elem_of(smp_in, sel_in), elem_of(smp_bz, sel_bz)]) if nbz else elem_of(smp_in, sel_in)
     # outside targets
     outside = []
     nd = len(glo)
@@ -394,7 +401,28 @@ def execute_locate(case, res):
         res.count('locate_tol/' + tk)
         return out + (path,)
 
-    def check_sample(s, expect, label, path):
+    def is_eps_corner(s, Y, expect, gen_elem, err):
+        """Structural predicate of the open finding C11-locate-manifold-eps-corner: manifold case AND eps>0 AND the
+        target lies on the manifold (by construction) AND every badly located point is the closest point (orthogonal
+        projection) of a *different* element than the one the target was generated on."""
+        if not (case['manifold'] and eps > 0 and gen_elem is not None):
+            return False
+        try:
+            located_elem = s.eval(topo.f_index)
+            fine = topo.sample('bezier', 17)
+            Xf = fine.eval(G, args)
+        except Exception:
+            return False
+        for k in numpy.nonzero(err > 100 * bound_ok)[0]:
+            j = int(located_elem[k])
+            if j == int(gen_elem[k]):
+                return False
+            dmin = numpy.linalg.norm(Xf[fine.getindex(j)] - expect[k], axis=1).min()
+            if err[k] > dmin * (1 + 1e-6) + 1e-9:
+                return False  # the returned point is not even the closest point of the element it was assigned to
+        return True
+
+    def check_sample(s, expect, label, path, gen_elem=None):
         try:
             Y = s.eval(G, args)
         except Exception as e:
@@ -417,7 +445,7 @@ def execute_locate(case, res):
         perm_ok = sorted(map(tuple, numpy.round(Y, 6).tolist())) == sorted(map(tuple, numpy.round(expect, 6).tolist()))
         rep.violation('located points are not within the requested tolerance of the targets (in input order)',
                       f'{where} {label} path={path}: max distance {worst:.3e} > bound {bound_ok:.3e} (tol={tol}, eps={eps}); same set in other order: {perm_ok}; targets={expect.tolist()} located={Y.tolist()}'[:1800],
-                      mechanism='C11-locate-manifold-projection' if case['manifold'] and not perm_ok else None, path=path)
+                      mechanism='C11-locate-manifold-eps-corner' if is_eps_corner(s, Y, expect, gen_elem, err) else None, path=path)
 
     # 1. inside targets, shuffled: must be found, in input order
     order = rng.permutation(len(inside))
@@ -433,7 +461,7 @@ def execute_locate(case, res):
     if st == 'LocateError':
         rep.violation('locate raised LocateError for targets that are images of points of the topology', f'{where} path={path} tol={tol} eps={eps}: {s}; targets={targets.tolist()}'[:1800], path=path)
     else:
-        check_sample(s, targets, 'inside', path)
+        check_sample(s, targets, 'inside', path, inside_elem[order])
         res.count('locate_inside_calls_ok')
     # 2. with outside targets mixed in
     if outside:
@@ -442,6 +470,7 @@ def execute_locate(case, res):
         isin = numpy.concatenate([numpy.ones(len(inside), bool), numpy.zeros(len(outside), bool)])
         order = rng.permutation(len(allx))
         allx, isin = allx[order], isin[order]
+        all_elem = numpy.concatenate([inside_elem, -numpy.ones(len(outside), dtype=int)])[order]
         if case['skip_missing']:
             if rng.random() < .25:
                 # nothing but outside targets: the result must be an empty sample
@@ -463,7 +492,7 @@ def execute_locate(case, res):
                     rep.violation('skip_missing did not drop exactly the outside targets', f'{where} path={path}: kept {s.npoints} of {len(allx)}, expected {int(isin.sum())}; targets={allx.tolist()} inside={isin.tolist()}'[:1800],
                                   mechanism='C11-locate-manifold-projection' if case['manifold'] and s.npoints > int(isin.sum()) else None, path=path)
                 else:
-                    check_sample(s, allx[isin], 'skip_missing', path)
+                    check_sample(s, allx[isin], 'skip_missing', path, all_elem[isin])
             elif st == 'LocateError':
                 rep.violation('locate(skip_missing=True) raised LocateError', f'{where} path={path}: {s}'[:800], path=path)
             elif st == 'exc':
@@ -555,7 +584,7 @@ def repro_manifold_zero_step():
     return d > 1e-5, f"unitsquare(2,'square').boundary['bottom'].locate(geom, [[.3, 1.7]], tol=1e-10) silently returns the point {y.tolist()} at distance {d:.3g} from the target"
 
 
-def repro_manifold_corner():
+def repro_manifold_eps_corner():
     from nutils import mesh, topology
     topo, geom = mesh.rectilinear([4, 1])
     g = geom * [.25, 1.]
@@ -565,13 +594,7 @@ def repro_manifold_corner():
         return False, 'rectilinear([4,1]).boundary.locate(geom*[.25,1], [[1,.9]], eps=1e-10) raises LocateError'
     y = s.eval(g)
     d = float(numpy.linalg.norm(y - [[1., .9]]))
-    return d > 1e-5, f'rectilinear([4,1]).boundary.locate(geom*[.25,1], [[1,.9]], eps=1e-10): target lies on the right edge, returned point {y.tolist()} at distance {d:.3g}'
-
-
-def repro_manifold():
-    a, wa = repro_manifold_zero_step()
-    b, wb = repro_manifold_corner()
-    return bool(a or b), wa + ' | ' + wb
+    return d > 1e-5, f'rectilinear([4,1]).boundary.locate(geom*[.25,1], [[1,.9]], eps=1e-10): the target lies ON the right edge, the returned point is {y.tolist()} (on the top edge) at distance {d:.3g}'
 
 
 def repro_skip_missing_all():
@@ -596,28 +619,8 @@ def repro_single_element_line():
     return bool(abs(y - .5).max() > 1e-9), f'mesh.line(1): locate(geom, [.5], eps=1e-10) -> {y.tolist()}'
 
 
-def repro_scaledupdim_identity():
-    from nutils import mesh
-    topo, geom = mesh.rectilinear([2, 2])
-    ifaces = topo.trim(geom[0] - .7, maxrefine=1).interfaces
-    edges = ifaces.transforms.edges(ifaces.references)
-    k = 0
-    for ref in ifaces.references:
-        for etrans, eref in ref.edges:
-            for ctrans in (eref.child_transforms if eref else ()):
-                chain = edges[k] + (ctrans,)
-                try:
-                    i, tail = edges.index_with_tail(chain)
-                except ValueError:
-                    return True, f'edges = interfaces.transforms.edges(interfaces.references) of a trimmed rectilinear([2,2]); edges.index_with_tail(edges[{k}] + ({ctrans!r},)) raises ValueError; edges[{k}]={edges[k]!r}'
-                if i != k:
-                    return True, f'wrong index {i} != {k}'
-            k += 1
-    return False, 'all point-edge elements of the trimmed interface sequence resolve with their own child transform as tail'
-
-
-REPRODUCERS = {'C11-locate-manifold-projection': repro_manifold, 'C11-locate-skip-missing-all': repro_skip_missing_all, 'C11-locate-single-element-line': repro_single_element_line,
-               'C11-scaledupdim-identity-tail': repro_scaledupdim_identity}
+REPRODUCERS = {'C11-locate-manifold-projection': repro_manifold_zero_step, 'C11-locate-skip-missing-all': repro_skip_missing_all,
+               'C11-locate-single-element-line': repro_single_element_line, 'C11-locate-manifold-eps-corner': repro_manifold_eps_corner}
 
 
 def finalize(m, tier, seed):
@@ -634,7 +637,9 @@ def finalize(m, tier, seed):
                ops_applied=group('ops_applied/'), refused=group('refused/'), lookups=c.get('lookups', 0), lookup_forms=group('lookup_form/'),
                rewritten_chain_not_resolved=group('rewritten_chain_not_resolved/'), tails_by_item=group('tail_item/'), tails_by_length=group('tail_len/'),
                absent_lookups=c.get('absent_lookups', 0), absent_refused=c.get('absent_refused', 0), absent_kinds=group('absent_kind/'),
-               absent_resolved_to_equivalent=c.get('absent_resolved_to_equivalent', 0),
+               absent_resolved_to_equivalent=c.get('absent_resolved_to_equivalent', 0), out_of_scope=group('out_of_scope/'),
+               sequences_violating_prefix_precondition=c.get('sequences_violating_prefix_precondition', 0), prefix_precondition_violated_in=sorted(m.sets.get('prefix_precondition_violated_in', ()))[:10],
+               boundary_with_ghost_opposites=c.get('boundary_with_ghost_opposites', 0), manifold_eps_outside_not_demanded=c.get('manifold_eps_outside_not_demanded', 0),
                getitem=group('getitem/'), getitem_refused=group('getitem_refused/'), getitem_refused_other=group('getitem_refused_other/'), getitem_accepted=group('getitem_accepted/'),
                derived_sequences=group('derived_sequences/'), derived_topologies=group('derived_topologies/'), chained_sequences=c.get('chained_sequences', 0),
                gc_lookups=c.get('gc_lookups', 0), rebuilt_chain_lookups=c.get('rebuilt_chain_lookups', 0), rebuilt_items_not_identical=c.get('rebuilt_items_not_identical', 0),
